@@ -12,6 +12,7 @@ import Lemmas.StripStages
 import Lemmas.Colour3
 import Lemmas.ColourHyphen
 import Props.C14
+import Lemmas.LinebreakTable
 namespace TW.C13
 
 -- @audit TW.C13.strip_append_normal
@@ -410,6 +411,36 @@ theorem wrap_colour_own (env : Env) (hcw : ∀ c, env.cw c ≤ c.utf8Size)
     (fun p _ _ => C05.shortcutContracts_own env o hsp pen0 halg _ (hu _))
     (fun p _ _ => C05.shortcutContracts_own env o hsp pen0 halg _ (hu _))
     ls h
+
+/-- **`wrap` of coloured text, both separators, both algorithms, with no contract of an external
+    crate**: `smawk`'s algorithm and `unicode_linebreak`'s scan (on the compiled tables) are inside
+    the model; for the Unicode separator the visible text must be free of hard-line-break
+    characters (`HardFree`, where LB7 is a theorem) -/
+-- @audit TW.C13.wrap_colour_ownlb
+theorem wrap_colour_ownlb (env : Env) (henv : env.opps = ownOpps lbTables) (hcw : ∀ c, env.cw c ≤ c.utf8Size)
+    (o : Opts) (hsp : Builtin o.splitter) (pen0 : Penalties)
+    (halg : o.alg = .firstFit ∨ (o.alg = .optimalFit pen0 ∧ 0 < pen0.nline))
+    (hii : ∀ c ∈ o.initialIndent, c ≠ ESC) (hsi : ∀ c ∈ o.subsequentIndent, c ≠ ESC)
+    (paras : List CPara) (hne : paras ≠ [])
+    (hv : ∀ p ∈ paras, ValidB p.1 p.2 ∧ Attached none p.1 p.2 ∧ LF ∉ colOf p.1 p.2 ∧ LF ∉ visOf p.1 ∧
+      HyphenOk env o p.1 p.2 ∧ (o.sep = .unicode → HardFree (visOf p.1)))
+    (ls : List Text)
+    (h : wrap env (ownMinima (α := Int) pen0) o (joinWith o.lineEnding.str (paras.map fun p => colOf p.1 p.2)) = some ls) :
+    wrap env (ownMinima (α := Int) pen0) o (joinWith o.lineEnding.str (paras.map fun p => visOf p.1)) =
+      some (ls.map stripAnsi) := by
+  refine wrap_colour env hcw _ (fun frs lws => ownMinima_rowsShape pen0 frs lws) o hsp hii hsi paras hne
+    (fun p hp => ?_) (fun p hp _ => ?_) (fun p hp _ => ?_) ls h
+  · obtain ⟨h1, h2, h3, h4, h5, _⟩ := hv p hp
+    exact ⟨h1, h2, h3, h4, by rw [henv]; exact ownOpps_pairwise _ _, h5⟩
+  · obtain ⟨h1, _, _, _, _, h6⟩ := hv p hp
+    refine C05.shortcutContracts_own env o hsp pen0 halg _ (fun hs => ⟨?_, boundary_own env lbTables henv _⟩)
+    rw [strip_colOf p.1 p.2 h1]
+    exact oppsNoSpace_own env henv _ (h6 hs)
+  · obtain ⟨h1, _, _, _, _, h6⟩ := hv p hp
+    refine C05.shortcutContracts_own env o hsp pen0 halg _ (fun hs => ⟨?_, boundary_own env lbTables henv _⟩)
+    have hs2 : stripAnsi (visOf p.1) = visOf p.1 := stripFrom_normal_escfree _ (visOf_noEsc p.1 p.2 h1)
+    rw [hs2]
+    exact oppsNoSpace_own env henv _ (h6 hs)
 
 /-! the hypotheses are satisfiable: a coloured sentence (a test, labelled as such) -/
 example :
